@@ -36,7 +36,7 @@ def make_big_job(rng, seed):
     return cc, ops
 
 
-def make_job(rng, seed, nfiles=(2, 4), mode=None, small=True, restart=False, many_calls=False):
+def make_job(rng, seed, nfiles=(2, 4), mode=None, small=True, restart=False, many_calls=False, digits=False):
     """a short gapped / continuous recording: open, a few writes with gaps and multi-file spans, close
     many_calls: more calls, both entry points (rf_write, rf_write_blocks) late in the job - whatever fails, calls of both
     kinds follow it"""
@@ -48,7 +48,7 @@ def make_job(rng, seed, nfiles=(2, 4), mode=None, small=True, restart=False, man
     t0 = (rng.randint(315532800, 4102444800) * 1000) // (sc * 1000) * (sc * 1000) + rng.randint(0, (sc * 1000) // fc - 1) * fc
     if rng.random() < 0.5:
         t0 = (t0 // (sc * 1000) + 1) * sc * 1000 - fc  # the second file starts a new subdirectory
-    if rng.random() < 0.12:
+    if digits or rng.random() < 0.12:
         # the second count of the file names gains a digit inside the recording (10^9 s), within one subdirectory if possible
         t0 = (10**12 // fc - rng.randint(1, 2)) * fc
     nw = rng.randint(*nfiles) + 1
